@@ -51,24 +51,30 @@ def domEnd (w : DEnv α) (φ : F α) : Option Rat :=
   | [] => none
   | t :: ts => some (ts.foldl min t)
 
+/-- Bounds of the dense-time operators are in the default unit; the core syntax carries
+    naturals — the correspondence harness scales time so that all bounds are integers
+    (quarter grid ×4); `scale` is that factor's inverse applied here. -/
+structure DCfg where
+  scale : Rat := 1      -- a bound `k` of the core formula denotes the duration `k * scale`
+
 /-- Candidate break-points (a finite superset of the break-points of `rhoD φ`). -/
-def bps (w : DEnv α) : F α → List Rat
+def bps (cfg : DCfg) (w : DEnv α) : F α → List Rat
   | .var x => (w.sig x).times
   | .const _ => []
-  | .un _ φ => bps w φ
-  | .bin _ φ ψ => bps w φ ++ bps w ψ
-  | .tmp1 _ φ => bps w φ
-  | .tmp2 _ φ ψ => bps w φ ++ bps w ψ
+  | .un _ φ => bps cfg w φ
+  | .bin _ φ ψ => bps cfg w φ ++ bps cfg w ψ
+  | .tmp1 _ φ => bps cfg w φ
+  | .tmp2 _ φ ψ => bps cfg w φ ++ bps cfg w ψ
   | .tb1 op a b φ =>
-      let B := bps w φ
+      let B := dom w φ :: bps cfg w φ
       match op with
-      | .once | .hist => B.map (· + (a : Rat)) ++ B.map (· + (b : Rat)) ++ B
-      | .ev | .alw => B.map (· - (a : Rat)) ++ B.map (· - (b : Rat)) ++ B
+      | .once | .hist => B.map (· + (a : Rat) * cfg.scale) ++ B.map (· + (b : Rat) * cfg.scale) ++ B
+      | .ev | .alw => B.map (· - (a : Rat) * cfg.scale) ++ B.map (· - (b : Rat) * cfg.scale) ++ B
   | .tb2 op a b φ ψ =>
-      let B := bps w φ ++ bps w ψ
+      let B := max (dom w φ) (dom w ψ) :: (bps cfg w φ ++ bps cfg w ψ)
       match op with
-      | .since | .precedes => B ++ B.map (· + (a : Rat)) ++ B.map (· + (b : Rat))
-      | .until => B ++ B.map (· - (a : Rat)) ++ B.map (· - (b : Rat))
+      | .since | .precedes => B ++ B.map (· + (a : Rat) * cfg.scale) ++ B.map (· + (b : Rat) * cfg.scale)
+      | .until => B ++ B.map (· - (a : Rat) * cfg.scale) ++ B.map (· - (b : Rat) * cfg.scale)
 
 /-- `sup` (or `inf`) of a right-continuous step function `g` with break-points in `B` over the
     closed window `[lo, hi]` (`hi = none`: unbounded above): value at `lo` and at the break-points
@@ -77,12 +83,6 @@ def foldWin (f : α → α → α) (init : α) (g : Rat → Option α) (B : List
     Option α :=
   let pts := lo :: B.filter (fun τ => decide (lo < τ) && (match hi with | some h => decide (τ ≤ h) | none => true))
   pts.foldlM (fun acc τ => (g τ).map (fun v => f acc v)) init
-
-/-- Bounds of the dense-time operators are in the default unit; the core syntax carries
-    naturals — the correspondence harness scales time so that all bounds are integers
-    (quarter grid ×4); `scale` is that factor's inverse applied here. -/
-structure DCfg where
-  scale : Rat := 1      -- a bound `k` of the core formula denotes the duration `k * scale`
 
 def rhoD (cfg : DCfg) (w : DEnv α) : F α → Rat → Option α
   | .var x => fun t => (w.sig x).valAt t
@@ -94,7 +94,7 @@ def rhoD (cfg : DCfg) (w : DEnv α) : F α → Rat → Option α
       pure (op.app l r)
   | .tmp1 op φ => fun t =>
       let g := rhoD cfg w φ
-      let B := bps w φ
+      let B := bps cfg w φ
       let d := dom w φ
       if t < d then none else
       match op with
@@ -106,8 +106,8 @@ def rhoD (cfg : DCfg) (w : DEnv α) : F α → Rat → Option α
   | .tmp2 op φ ψ => fun t =>
       let gφ := rhoD cfg w φ
       let gψ := rhoD cfg w ψ
-      let Bφ := bps w φ
-      let B := bps w φ ++ bps w ψ
+      let Bφ := bps cfg w φ
+      let B := bps cfg w φ ++ bps cfg w ψ
       let d := max (dom w φ) (dom w ψ)
       if t < d then none else
       match op with
@@ -127,7 +127,7 @@ def rhoD (cfg : DCfg) (w : DEnv α) : F α → Rat → Option α
               pure (pmin l r)) B t none
   | .tb1 op a b φ => fun t =>
       let g := rhoD cfg w φ
-      let B := bps w φ
+      let B := bps cfg w φ
       let d := dom w φ
       let a' : Rat := a * cfg.scale
       let b' : Rat := b * cfg.scale
@@ -140,8 +140,8 @@ def rhoD (cfg : DCfg) (w : DEnv α) : F α → Rat → Option α
   | .tb2 op a b φ ψ => fun t =>
       let gφ := rhoD cfg w φ
       let gψ := rhoD cfg w ψ
-      let Bφ := bps w φ
-      let B := bps w φ ++ bps w ψ
+      let Bφ := bps cfg w φ
+      let B := bps cfg w φ ++ bps cfg w ψ
       let d := max (dom w φ) (dom w ψ)
       let a' : Rat := a * cfg.scale
       let b' : Rat := b * cfg.scale
@@ -161,5 +161,140 @@ def rhoD (cfg : DCfg) (w : DEnv α) : F α → Rat → Option α
               let l ← foldWin pmin pinf gφ Bφ t (some t')
               pure (pmin l r)) B (t + a') (some (t + b'))
       | .precedes => none
+
+end Rtamt.Dense
+
+namespace Rtamt.Dense
+open Rtamt Val
+
+variable {α : Type} [Val α]
+
+/-! ### bottom-up evaluator
+
+`rhoD` re-evaluates the operands at every point it reads, which is exponential in the nesting
+depth.  `sigOf` computes the step function of every sub-formula once, as a sample list over the
+candidate break-points `bps`, and evaluates an operator at a point from the operand *lists*.
+It is the evaluator the driver runs; it coincides with `rhoD` as long as `bps` is a superset
+of the break-points (validated by the driver on every run against `rhoD`, see `Main.lean`). -/
+
+def insertSorted (t : Rat) : List Rat → List Rat
+  | [] => [t]
+  | x :: xs => if t < x then t :: x :: xs else if t = x then x :: xs else x :: insertSorted t xs
+
+def sortDedup (l : List Rat) : List Rat := l.foldl (fun acc t => insertSorted t acc) []
+
+/-- Operand as a function of time, from its sample list (constants are defined everywhere). -/
+def asFun (φ : F α) (s : DSig α) : Rat → Option α :=
+  match φ with
+  | .const c => fun _ => some c
+  | _ => s.valAt
+
+/-- One operator at one point, reading its operands through `gs`. -/
+def opAt (cfg : DCfg) (w : DEnv α) (φ : F α) (gs : List (Rat → Option α)) (t : Rat) : Option α :=
+  match φ, gs with
+  | .var x, _ => (w.sig x).valAt t
+  | .const c, _ => some c
+  | .un op _, [g] => (g t).map op.app
+  | .bin op _ _, [g1, g2] => do
+      let l ← g1 t
+      let r ← g2 t
+      pure (op.app l r)
+  | .tmp1 op ψ, [g] =>
+      let B := bps cfg w ψ
+      let d := dom w ψ
+      if t < d then none else
+      match op with
+      | .once => foldWin pmax ninf g B d (some t)
+      | .hist => foldWin pmin pinf g B d (some t)
+      | .ev => foldWin pmax ninf g B t none
+      | .alw => foldWin pmin pinf g B t none
+      | _ => none
+  | .tmp2 op ψ1 ψ2, [g1, g2] =>
+      let B1 := bps cfg w ψ1
+      let B := bps cfg w ψ1 ++ bps cfg w ψ2
+      let d := max (dom w ψ1) (dom w ψ2)
+      if t < d then none else
+      match op with
+      | .since =>
+          foldWin pmax ninf
+            (fun t' => do
+              let r ← g2 t'
+              let l ← foldWin pmin pinf g1 B1 t' (some t)
+              pure (pmin l r)) B d (some t)
+      | .until =>
+          foldWin pmax ninf
+            (fun t' => do
+              let r ← g2 t'
+              let l ← foldWin pmin pinf g1 B1 t (some t')
+              pure (pmin l r)) B t none
+  | .tb1 op a b ψ, [g] =>
+      let B := bps cfg w ψ
+      let d := dom w ψ
+      let a' : Rat := a * cfg.scale
+      let b' : Rat := b * cfg.scale
+      if t < d then none else
+      match op with
+      | .once => if t - a' < d then some ninf else foldWin pmax ninf g B (max (t - b') d) (some (t - a'))
+      | .hist => if t - a' < d then some pinf else foldWin pmin pinf g B (max (t - b') d) (some (t - a'))
+      | .ev => foldWin pmax ninf g B (t + a') (some (t + b'))
+      | .alw => foldWin pmin pinf g B (t + a') (some (t + b'))
+  | .tb2 op a b ψ1 ψ2, [g1, g2] =>
+      let B1 := bps cfg w ψ1
+      let B := bps cfg w ψ1 ++ bps cfg w ψ2
+      let d := max (dom w ψ1) (dom w ψ2)
+      let a' : Rat := a * cfg.scale
+      let b' : Rat := b * cfg.scale
+      if t < d then none else
+      match op with
+      | .since =>
+          if t - a' < d then some ninf else
+          foldWin pmax ninf
+            (fun t' => do
+              let r ← g2 t'
+              let l ← foldWin pmin pinf g1 B1 t' (some t)
+              pure (pmin l r)) B (max (t - b') d) (some (t - a'))
+      | .until =>
+          foldWin pmax ninf
+            (fun t' => do
+              let r ← g2 t'
+              let l ← foldWin pmin pinf g1 B1 t (some t')
+              pure (pmin l r)) B (t + a') (some (t + b'))
+      | .precedes => none
+  | _, _ => none
+
+/-- Sample list of a node from a point-evaluator: the candidate break-points `≥ dom`. -/
+def sample (cfg : DCfg) (w : DEnv α) (φ : F α) (at_ : Rat → Option α) : DSig α :=
+  let d := dom w φ
+  let pts := sortDedup ((d :: bps cfg w φ).filter (fun t => decide (d ≤ t)))
+  pts.filterMap (fun t => (at_ t).map (fun v => (t, v)))
+
+def sigOf (cfg : DCfg) (w : DEnv α) : F α → DSig α
+  | .var x => w.sig x
+  | .const c => [(0, c)]
+  | .un op φ =>
+      let g := asFun φ (sigOf cfg w φ)
+      sample cfg w (.un op φ) (opAt cfg w (.un op φ) [g])
+  | .bin op φ ψ =>
+      let g1 := asFun φ (sigOf cfg w φ)
+      let g2 := asFun ψ (sigOf cfg w ψ)
+      sample cfg w (.bin op φ ψ) (opAt cfg w (.bin op φ ψ) [g1, g2])
+  | .tmp1 op φ =>
+      let g := asFun φ (sigOf cfg w φ)
+      sample cfg w (.tmp1 op φ) (opAt cfg w (.tmp1 op φ) [g])
+  | .tmp2 op φ ψ =>
+      let g1 := asFun φ (sigOf cfg w φ)
+      let g2 := asFun ψ (sigOf cfg w ψ)
+      sample cfg w (.tmp2 op φ ψ) (opAt cfg w (.tmp2 op φ ψ) [g1, g2])
+  | .tb1 op a b φ =>
+      let g := asFun φ (sigOf cfg w φ)
+      sample cfg w (.tb1 op a b φ) (opAt cfg w (.tb1 op a b φ) [g])
+  | .tb2 op a b φ ψ =>
+      let g1 := asFun φ (sigOf cfg w φ)
+      let g2 := asFun ψ (sigOf cfg w ψ)
+      sample cfg w (.tb2 op a b φ ψ) (opAt cfg w (.tb2 op a b φ ψ) [g1, g2])
+
+/-- Value of the formula at `t` through the bottom-up evaluator. -/
+def evalAt (cfg : DCfg) (w : DEnv α) (φ : F α) (t : Rat) : Option α :=
+  if t < dom w φ then none else asFun φ (sigOf cfg w φ) t
 
 end Rtamt.Dense
